@@ -94,6 +94,10 @@ namespace pika::detail {
         {
             old_state = expected;
 
+            // The state may have changed in any way since it was loaded, in
+            // particular another stop request may have been made and completed.
+            if (stop_requested(old_state)) return false;
+
             for (std::size_t k = 0; is_locked(old_state); ++k)
             {
                 pika::execution::this_thread::detail::yield_k(
@@ -130,6 +134,18 @@ namespace pika::detail {
             std::memory_order_acquire, std::memory_order_relaxed))
         {
             old_state = expected;
+
+            // The state may have changed in any way since it was loaded, in
+            // particular a stop request may have been made and completed.
+            if (stop_requested(old_state))
+            {
+                cb->execute();
+
+                cb->callback_finished_executing_.store(true, std::memory_order_release);
+
+                return false;
+            }
+            else if (!stop_possible(old_state)) { return false; }
 
             for (std::size_t k = 0; is_locked(old_state); ++k)
             {
